@@ -3,6 +3,7 @@ Spec: Batch.tla (chunking, per-worker category table / rule cache, collection; a
 4-sentence batch x process counts x chunk sizes); binding: TLC-generated schedules and random larger batches run
 through the real depccg.parsing.run (real multiprocessing.Pool), judged by traces/BatchTrace.tla."""
 import json
+import os
 import random
 import time
 
@@ -86,6 +87,32 @@ def call_run(h, D, order, processes, max_chunk):
     return h.parsing.run(doc, sc, list(D['cats']), list(D['roots']), D['bin'], D['un'], processes=processes, max_chunk_size=max_chunk, **D['kwargs'])
 
 
+def chunk_arithmetic_proof():
+    """spec/ChunkArith.tla: the slice arithmetic of Batch!Split / parsing.py:_chunks proved for every batch length and process
+    count with the TLA+ proof system (the bounded instances are what TLC enumerates).  A failed obligation means the
+    specification is wrong (machinery failure); a missing tool is only noted."""
+    import shutil
+    import subprocess
+    import re
+    from ..common import SPEC, scratch
+    exe = shutil.which('tlapm')
+    if not exe:
+        return {'module': 'ChunkArith.tla', 'status': 'tlapm not installed: proof not re-checked in this run'}
+    d = scratch('tlaps')
+    shutil.copy(os.path.join(SPEC, 'ChunkArith.tla'), d)
+    try:
+        p = subprocess.run([exe, '--toolbox', '0', '0', 'ChunkArith.tla'], cwd=d, stdout=subprocess.PIPE, stderr=subprocess.STDOUT, timeout=900)
+    except subprocess.TimeoutExpired:
+        return {'module': 'ChunkArith.tla', 'status': 'tlapm did not finish in 900 s: proof not re-checked in this run'}
+    out = p.stdout.decode('utf-8', 'replace')
+    m = re.search(r'All (\d+) obligations? proved', out)
+    if m:
+        return {'module': 'ChunkArith.tla', 'theorem': 'ChunkCount (all n >= 1, p >= 1)', 'status': 'proved', 'obligations': int(m.group(1))}
+    if re.search(r'obligations? failed', out):
+        raise Machinery('ChunkArith.tla: TLAPS could not prove an obligation (specification of the chunk arithmetic is wrong?)\n' + out[-800:])
+    return {'module': 'ChunkArith.tla', 'status': 'tlapm gave no verdict: proof not re-checked in this run', 'tail': out[-300:]}
+
+
 def run(tier):
     t0 = time.time()
     rng = random.Random(seed())
@@ -96,6 +123,7 @@ def run(tier):
     if len(vecs) < 100:
         raise Machinery('too few schedules from TLC: %d' % len(vecs))
     cov = {'tlc_runs': [{'cfg': 'MCBatch.cfg', 'distinct': r.distinct, 'generated': r.generated, 'schedules': len(vecs), 'wall_s': round(r.wall, 1)}]}
+    cov['tlaps'] = chunk_arithmetic_proof()
     h = substrate.load(hook=False)
     events, metas = [], {}
 
